@@ -151,6 +151,10 @@ class Timeline(object):
         self.options = {k: v for k, v in DEFAULT_OPTIONS.items()}
         if options:
             self.options.update(options)
+        if "scale" not in options:
+            # every timeline gets its own copy of the default scale: the
+            # axis domain and range are written into it below
+            self.options["scale"] = DEFAULT_OPTIONS["scale"].copy()
         self.direction = self.options["direction"]
         self.options["labella"]["direction"] = self.direction
         # parse items
